@@ -141,12 +141,17 @@ def run(tier):
         if not mt:  # the k-sweep needs a schedule-independent evaluation count
             for k in sweep_ks:   # small k are cheap for every planner (batch planners are interrupted while sampling)
                 hs.append(sweep_history(k, rng.choice(sweep_k2)))
+        has_range = any(q["name"] == "range" for q in p.get("params", []))
         for h in hs:
             W, H, obst = rng.choice(MAPS)
             jid += 1
             jobs.append({"id": jid, "planner": p["name"], "W": W, "H": H, "obst": sorted(set(obst)),
                          "seed": rng.randrange(1, 1 << 30), "thr": rng.choice([0.0, 0.0, 0.5]), "ops": h,
                          "params": c01.pick_params(p, rng, prob=0.6)})
+            # short motions (a fraction of a cell): trees of many small steps, connect / extend loops that advance
+            # several times before an obstacle stops them - an interrupted solve then holds much more half-done work
+            if has_range and rng.random() < 0.4:
+                jobs[-1]["params"]["range"] = rng.choice(["0.15", "0.3"])
     nforget = 0
     for p in planners:
         mt, slow = bool(p["flags"] & F_MT), bool(p["flags"] & F_SLOW)
